@@ -245,11 +245,12 @@ Proof.
 Qed.
 
 (* the end of a segment, terminated by a separator *)
-Lemma seg_leaf c' inp p0 U buf SL :
+Lemma seg_leaf c' inp (p0 : Z) U buf SL :
   no_adjacent_sl inp -> segs_ok (u_path U) ->
-  (buf = [] -> sl (cp_at inp (p0 + 1)) = true -> sl (cp_at inp p0) = true) ->
-  SL = true -> sl (cp_at inp (p0 + 1)) = true ->
-  segs_ok (u_path (seg_end c' U buf SL)) /  (@nil N = [] -> sl (cp_at inp (p0 + 1 + 1)) = true -> sl (cp_at inp (p0 + 1)) = true).
+  (buf = [] -> sl (cp_at inp (p0 + 1)%Z) = true -> sl (cp_at inp p0) = true) ->
+  SL = true -> sl (cp_at inp (p0 + 1)%Z) = true ->
+  segs_ok (u_path (seg_end c' U buf SL)) /\
+  ((@nil N) = (@nil N) -> sl (cp_at inp (p0 + 1 + 1)%Z) = true -> sl (cp_at inp (p0 + 1)%Z) = true).
 Proof.
   intros Hadj P Hbuf -> Hr. split; [|intros _ _; exact Hr].
   apply seg_end_slash; [exact P|]. intros Hb. exact (Hadj p0 (Hbuf Hb Hr) Hr).
@@ -275,9 +276,9 @@ Proof.
   all: intros Hsp; unfold IsSpecialScheme in Hsp; rewrite ?seg_end_scheme in Hsp; cbn [u_scheme set_verrs] in Hsp.
   all: specialize (HI Hsp); destruct HI as [P Hbuf].
   all: try (split; [exact P|]; intros Hb; exfalso; revert Hb; apply app_nonempty_r;
-            first [apply per_nonempty | apply peir_nonempty]).
+            first [apply per_nonempty | apply peir_nonempty | apply (per_nonempty c r (Some (c_pathSet c)))]).
   all: assert (SL : (r =? 47) || isSpecialSchemeAndBackslash (with_collapse c b) u r = true)
-         by (rewrite Heof in *; destruct (r =? 47); [reflexivity|]; cbn [orb andb] in *;
+         by (try rewrite Heof in *; destruct (r =? 47); [reflexivity|]; cbn [orb andb] in *;
              first [ assumption
                    | match goal with Hc : _ = true |- _ => rewrite ?andb_false_r in Hc; discriminate Hc end ]).
   all: apply seg_leaf; [exact Hadj|exact P|exact Hbuf|exact SL|exact (slashlike_sl _ _ _ SL)].
